@@ -371,3 +371,231 @@ func (c *Ctx) ABSWD(rule string) []report.Obligation {
 	}
 	return out
 }
+
+// ---------------------------------------------------------------------------
+// STOREALL: a derivation of a project says the same things about its result on every way out. For each method of
+// *Project that returns a copy made by deepCopy: a field of the copy that is assigned on some path is assigned on
+// every path to a success return of that copy. A field left as the deep copy made it keeps what the RECEIVER said
+// (the profile list of an earlier selection, the disabled services of an earlier partition), and the next derivation
+// builds on it.
+// ---------------------------------------------------------------------------
+func (c *Ctx) STOREALL(rule string) []report.Obligation {
+	var out []report.Obligation
+	n := 0
+	for _, fn := range c.P.Funcs {
+		id := c.P.FuncID(fn)
+		if !strings.HasPrefix(id, "types.(*Project).") || fn.Blocks == nil {
+			continue
+		}
+		for _, cs := range callSites(fn, func(com *ssa.CallCommon) bool {
+			cal := com.StaticCallee()
+			return cal != nil && c.P.FuncID(cal) == "types.(*Project).deepCopy"
+		}) {
+			cp, ok := cs.(ssa.Value)
+			if !ok {
+				continue
+			}
+			stores := map[string][]*ssa.Store{}
+			for _, r := range *cp.Referrers() {
+				fa, ok := r.(*ssa.FieldAddr)
+				if !ok {
+					continue
+				}
+				for _, rr := range *fa.Referrers() {
+					if st, ok := rr.(*ssa.Store); ok && st.Addr == ssa.Value(fa) {
+						stores[fieldName(fa)] = append(stores[fieldName(fa)], st)
+					}
+				}
+			}
+			var fields []string
+			for f := range stores {
+				fields = append(fields, f)
+			}
+			sort.Strings(fields)
+			for _, f := range fields {
+				n++
+				good, pos := true, c.P.InstrPos(stores[f][0])
+				for _, r := range returnsOf(fn) {
+					if len(r.Results) == 0 || r.Results[0] != cp {
+						continue
+					}
+					if ev := errRet(r); ev != nil && !prog.IsNilConst(ev) {
+						continue
+					}
+					dom := false
+					for _, st := range stores[f] {
+						if prog.InstrDominates(st, r) {
+							dom = true
+						}
+					}
+					if !dom {
+						good, pos = false, c.P.InstrPos(r)
+					}
+				}
+				out = append(out, verdict(good, rule, id+" :: "+f+" of the copy is assigned on every way out", pos,
+					"a store of the field dominates every success return of the copy", "the copy is returned on a path that does not assign "+f+", which other paths do: there the field keeps what the receiver held (an earlier selection), and the derivations that read it next build on a list that no longer describes the result"))
+			}
+		}
+	}
+	c.Stats[rule+".fields"] = n
+	if n == 0 {
+		out = append(out, bad(rule, "derivations", "", "no method of *Project assigns a field of a deep copy: the rule has nothing to decide (undecided means fail)"))
+	}
+	return out
+}
+
+// ---------------------------------------------------------------------------
+// VALIDNIL: the tree handed to the schema validator has no nil list in it. The validator sees the JSON encoding of
+// the tree, in which a nil []any is `null` and an explicit `[]` is refused as "must be a list". Nil lists are made by
+// the steps of the pipeline itself (OmitEmpty rebuilds every list from `var c []any`), and the model of an earlier
+// file or of an included project has been through those steps when the next file is validated. So the repair of nil
+// lists (fixEmptyNotNull) is applied to the very value that is validated, after everything that was merged into it:
+// in the block of each schema.Validate(x) call of package loader, a call fixEmptyNotNull(x) precedes it with no
+// assignment of x in between.
+// ---------------------------------------------------------------------------
+func (c *Ctx) VALIDNIL(rule string) []report.Obligation {
+	var out []report.Obligation
+	n := 0
+	for _, fn := range c.P.Funcs {
+		id := c.P.FuncID(fn)
+		if !strings.HasPrefix(id, "loader.") {
+			continue
+		}
+		for _, b := range fn.Blocks {
+			for i, in := range b.Instrs {
+				call, ok := in.(*ssa.Call)
+				if !ok || c.calleeID(&call.Call) != "schema.Validate" || len(call.Call.Args) == 0 {
+					continue
+				}
+				n++
+				arg := call.Call.Args[0]
+				good := false
+				for j := i - 1; j >= 0; j-- {
+					if st, ok := b.Instrs[j].(*ssa.Store); ok {
+						if ld, isLd := arg.(*ssa.UnOp); isLd && st.Addr == ld.X {
+							break // x is assigned between the repair and the validation
+						}
+					}
+					if fx, ok := b.Instrs[j].(*ssa.Call); ok && c.calleeID(&fx.Call) == "loader.fixEmptyNotNull" && len(fx.Call.Args) == 1 && sameLoad(unwrapIface(fx.Call.Args[0]), unwrapIface(arg)) {
+						good = true
+						break
+					}
+				}
+				out = append(out, verdict(good, rule, id+" :: nil lists are repaired in the value that is validated", c.P.InstrPos(in),
+					"fixEmptyNotNull(x) precedes schema.Validate(x) with no assignment of x in between", "the validated tree was merged from parts that went through the pipeline (an earlier file, an included project) after the last repair of nil lists: an attribute written `[]` there is a nil list here, encodes as `null`, and the valid model is refused with `must be a list`"))
+			}
+		}
+	}
+	if n == 0 {
+		out = append(out, bad(rule, "call of schema.Validate in package loader", "", "anchor does not resolve on this tree; the rule cannot be decided (undecided means fail)"))
+	}
+	return out
+}
+
+func unwrapIface(v ssa.Value) ssa.Value {
+	for {
+		switch x := v.(type) {
+		case *ssa.MakeInterface:
+			v = x.X
+		case *ssa.ChangeType:
+			v = x.X
+		default:
+			return v
+		}
+	}
+}
+
+// ---------------------------------------------------------------------------
+// IDXCLEAN: mounts are told apart by the target the MODEL will show. The loader writes path.Clean(target) into every
+// mount of the final model, so `/data/` and `/data` are one target there; the unicity key of services.*.volumes is
+// taken while several spellings still exist (a long-syntax entry of a later file has not been through any step). Every
+// key the indexer of that row returns is therefore path.Clean of the target, in each of its arms.
+// ---------------------------------------------------------------------------
+func (c *Ctx) IDXCLEAN(rule string) []report.Obligation {
+	var out []report.Obligation
+	uniq := c.table(rule, TUnique, &out)
+	if uniq == nil {
+		return out
+	}
+	// (a) the final model holds cleaned targets
+	cleaned := ""
+	for _, fn := range c.P.Funcs {
+		if !strings.HasPrefix(c.P.FuncID(fn), "loader.") {
+			continue
+		}
+		for _, b := range fn.Blocks {
+			for _, in := range b.Instrs {
+				mu, ok := in.(*ssa.MapUpdate)
+				if !ok {
+					continue
+				}
+				if k, isK := constStr(unwrapIface(mu.Key)); !isK || k != "target" {
+					continue
+				}
+				if call, isC := unwrapIface(mu.Value).(*ssa.Call); isC && staticName(&call.Call) == "path.Clean" {
+					cleaned = c.P.InstrPos(in)
+				}
+			}
+		}
+	}
+	isClean := func(v ssa.Value) bool {
+		call, ok := v.(*ssa.Call)
+		if !ok {
+			return false
+		}
+		if staticName(&call.Call) == "path.Clean" {
+			return true
+		}
+		if h := call.Call.StaticCallee(); h != nil && c.P.InModule(h) && h.Blocks != nil {
+			for _, r := range returnsOf(h) {
+				hc, ok := r.Results[0].(*ssa.Call)
+				if !ok || staticName(&hc.Call) != "path.Clean" {
+					return false
+				}
+			}
+			return true
+		}
+		return false
+	}
+	n := 0
+	for _, ur := range uniq.Rows {
+		if ur.Fn == nil || ur.Pattern != "services.*.volumes" {
+			continue
+		}
+		n++
+		key := "unique[" + ur.Pattern + "] :: the key is the cleaned target"
+		if cleaned == "" {
+			out = append(out, ok2(rule, key, c.P.Pos(ur.Fn.Pos()), "the loader does not rewrite mount targets: the raw spelling is the target on both sides"))
+			continue
+		}
+		good, pos := true, c.P.Pos(ur.Fn.Pos())
+		for _, r := range returnsOf(ur.Fn) {
+			if len(r.Results) < 2 || !prog.IsNilConst(errRet(r)) {
+				continue
+			}
+			if _, isK := r.Results[0].(*ssa.Const); isK {
+				continue
+			}
+			v := r.Results[0]
+			okv := isClean(v)
+			if phi, isPhi := v.(*ssa.Phi); isPhi {
+				okv = true
+				for _, e := range phi.Edges {
+					if _, isK := e.(*ssa.Const); !isK && !isClean(e) {
+						okv = false
+					}
+				}
+			}
+			if !okv {
+				good, pos = false, c.P.InstrPos(r)
+			}
+		}
+		out = append(out, verdict(good, rule, key, pos,
+			"every arm returns path.Clean(target), which is what the loader writes into the model ("+cleaned+")",
+			"an arm returns the target as written while the model holds path.Clean(target) ("+cleaned+"): `data:/data/` in one file and `target: /data/` (or `/data`) in a later one are two keys, both entries survive the merge, and the service ends with two mounts on one target instead of the later file's"))
+	}
+	if n == 0 {
+		out = append(out, bad(rule, "unique[services.*.volumes]", "", "anchor does not resolve on this tree; the rule cannot be decided (undecided means fail)"))
+	}
+	return out
+}
